@@ -65,6 +65,7 @@ func runC11(r *Run) {
 			{Name: "detach-map", Kind: "nested", T: 256, Keys: 2, Classes: []string{"t", "h", "M"}, Oracles: or, Extra: ex(1, 2, 2, 2, 2)},
 			{Name: "detach-wrapped", Kind: "nested", T: 256, Keys: 2, Classes: []string{"t", "s:A", "s:M"}, Oracles: or, Extra: ex(0, 2, 2, 2, 2)},
 			{Name: "detach-2kids", Kind: "nested", T: 256, Keys: 2, Classes: []string{"t", "A", "M"}, Oracles: or, Extra: ex(0, 2, 1, 3, 2)},
+			{Name: "detach-2kids-map", Kind: "nested", T: 256, Keys: 2, Classes: []string{"t", "A", "M"}, Oracles: or, Extra: ex(1, 2, 1, 3, 2)},
 			{Name: "detach-depth3", Kind: "nested", T: 256, Keys: 1, Classes: []string{"h", "A", "M"}, Oracles: or, Extra: ex(0, 1, 2, 3, 3)},
 		}
 	} else {
